@@ -30,20 +30,32 @@ class Observation:
         self.state_at_stop = None
         self.partial_was_incremental = False
         self.partial_error = None
+        self.partial_await_error = None
         self.closed_after_raise = False
         self.result_step = None
         self.stop_step = None
 
 
 def run_incremental(schema, doc, variables, value_fn, seed, p_async=0.5, policy='random', early=False, script=None,
-                    stop=None, with_signal=False, rng=None, p_iter=0.2, p_item_async=0.2, max_pulls=200, harness_cls=Harness, source_burst=1):
-    """stop: None | ('aclose', k) | ('abort', reason)  (abort is an external scheduler action, enabled from the start)."""
+                    stop=None, with_signal=False, rng=None, p_iter=0.2, p_item_async=0.2, max_pulls=200, harness_cls=Harness, source_burst=1,
+                    tof=False):
+    """stop: None | ('aclose', k) | ('abort', reason) | ('abort', reason, 'before') | ('cancel-pull', k)
+
+    abort is an external scheduler action, enabled from the start; with 'before' the signal is already aborted when the
+    execution is started.  cancel-pull: the consumer's k-th pull runs as a task of its own which the scheduler may cancel
+    while it is in flight (asyncio.wait_for / a disconnecting client), after which the consumer closes the stream.
+    tof: values carry no __typename and no type resolver is given (abstract types resolve through is_type_of functions,
+    synchronous or awaitable, of a schema made by gen.schemas.rich_is_type_of)."""
     import random
     rng = rng or random.Random(seed)
     sched = Scheduler(rng, policy=policy, script=script)
     run = Run(sched)
-    hz = harness_cls(sched, value_fn, seed, p_async=p_async, p_iter=p_iter, p_item_async=p_item_async, schema=schema)
+    hz = harness_cls(sched, value_fn, seed, p_async=p_async, p_iter=p_iter, p_item_async=p_item_async, schema=schema,
+                     **({'hide_typename': True, 'p_type_async': 0.5} if tof else {}))
     hz.source_burst = source_burst
+    if tof:
+        from . import aharness
+        aharness._current[0] = hz
     obs = Observation()
     controller = AbortController() if (with_signal or (stop and stop[0] == 'abort')) else None
     executor_ref = {}
@@ -58,7 +70,8 @@ def run_incremental(schema, doc, variables, value_fn, seed, p_async=0.5, policy=
         return (len([1 for f in sched.gates.values() if not f.done()]), len(hz.unfinished()), len(obs.payloads),
                 sum(1 for i in hz.iterators if i.started and not i.exhausted), bool(early))
 
-    if stop and stop[0] == 'abort':
+    abort_before = bool(stop and stop[0] == 'abort' and len(stop) > 2 and stop[2] == 'before')
+    if stop and stop[0] == 'abort' and not abort_before:
         def do_abort():
             obs.stopped = ('abort', sched.step)
             obs.stop_step = sched.step
@@ -67,10 +80,35 @@ def run_incremental(schema, doc, variables, value_fn, seed, p_async=0.5, policy=
             controller.abort(stop[1])
         sched.external('abort', do_abort)
 
+    async def pull(it, k):
+        if not (stop and stop[0] == 'cancel-pull' and k == stop[1]):
+            return await anext(it)
+        t = asyncio.ensure_future(it.__anext__())
+
+        def do_cancel():
+            if t.done():
+                return
+            obs.stopped = ('cancel-pull', k)
+            obs.stop_step = sched.step
+            obs.state_at_stop = state_signature()
+            sched.freeze_gates = True
+            t.cancel()
+        sched.external('cancel-pull', do_cancel)
+        try:
+            return await t
+        finally:
+            sched.externals.pop('cancel-pull', None)
+
     async def main():
         try:
+            if abort_before:
+                obs.stopped = ('abort', 0)
+                obs.stop_step = 0
+                obs.state_at_stop = state_signature()
+                sched.freeze_gates = True
+                controller.abort(stop[1])
             result = experimental_execute_incrementally(
-                schema, doc, None, variable_values=variables, field_resolver=hz.resolver, type_resolver=hz.type_resolver,
+                schema, doc, None, variable_values=variables, field_resolver=hz.resolver, type_resolver=None if tof else hz.type_resolver,
                 enable_early_execution=early, hooks=ExecutionHooks(hook), abort_signal=controller.signal if controller else None)
             if hasattr(result, '__await__'):
                 result = await result
@@ -82,7 +120,13 @@ def run_incremental(schema, doc, variables, value_fn, seed, p_async=0.5, policy=
             partial = getattr(e, 'aborted_result', None)
             try:
                 if hasattr(partial, '__await__'):
-                    partial = await partial
+                    try:
+                        partial = await partial
+                    except BaseException as e3:  # noqa: BLE001
+                        # an execution that was aborted between two serially executed root fields has no partial result:
+                        # what it would have produced is rejected with the abort reason
+                        obs.partial_await_error = e3
+                        partial = None
                 stream = getattr(partial, 'subsequent_results', None)
                 if stream is not None:
                     obs.partial_was_incremental = True
@@ -115,10 +159,20 @@ def run_incremental(schema, doc, variables, value_fn, seed, p_async=0.5, policy=
                     return obs
                 await sched.gate(f'pull#{k}')
                 try:
-                    p = await anext(it)
+                    p = await pull(it, k)
                 except StopAsyncIteration:
                     obs.ended = True
                     break
+                except asyncio.CancelledError as e:
+                    if not (obs.stopped and obs.stopped[0] == 'cancel-pull'):
+                        obs.raised, obs.raised_at = e, f'pull#{k}'
+                        break
+                    # the consumer gave up waiting for this payload: it closes the stream it stops reading
+                    try:
+                        await it.aclose()
+                    except BaseException as e2:  # noqa: BLE001
+                        obs.raised, obs.raised_at = e2, 'aclose'
+                    return obs
                 except BaseException as e:  # noqa: BLE001
                     obs.raised, obs.raised_at = e, f'pull#{k}'
                     if (seed + k) % 2 == 0:
